@@ -142,7 +142,7 @@ func c08Case(ev *vlib.Evidence, driver string, idx int, allowHang bool) {
 	}
 	// the request
 	legacy := r.Intn(5) == 0
-	kind := vlib.Pick(r, "", "", "geth", "parity")
+	kind := vlib.Pick(r, "", "", "geth", "parity", "geth", "parity", "besu", "unknown")
 	supply := 0
 	for _, h := range hosts {
 		if h.fresh && (kind == "" || h.kind == kind) {
